@@ -59,3 +59,12 @@ Theorem C04_deliver_only_if : forall md5 rx cfg fs st s buf now rnd c p,
     (match rq_msg r with Some m => m_code m | None => 0 end) <> Consts.RAD_Status_Server.
 Proof. exact replyh_accept_only_if. Qed.
 Print Assumptions C04_deliver_only_if.
+
+(* ---- a dynamically discovered server (Dyn.merge_dyn: template block + the block printed by the lookup command): the secret
+   its replies are verified under is the printed one when the command gives one, else the template's -- and it is used
+   with its own length *)
+From RSP Require Import Dyn Dyn_proofs.
+Theorem C04_dynamic_secret : forall t l r, merge_dyn t l = Some r ->
+  d_secret r = match l_secret l with Some s => s | None => d_secret t end /\ secret_len r = length (d_secret r).
+Proof. exact merge_dyn_secret. Qed.
+Print Assumptions C04_dynamic_secret.
